@@ -36,6 +36,9 @@ def is_dense_ty(t):
     return DENSE + "<" in t
 
 
+_FACTS = None
+
+
 def canon_blocks(fn):
     """blocks that start the strip-leading-zeros loop: a `last()` call lying on a cycle with a `pop()` call"""
     lasts = [bb for bb, t in fn.calls() if t["f"].get("name") == "last"]
@@ -46,11 +49,30 @@ def canon_blocks(fn):
         for p in pops:
             if p in r and l in fn.reachable_from(p):
                 out.add(l)
+    # the same canonicalisation without a loop: truncate(position of the last non-zero coefficient + 1)
+    truncs = [(bb, t) for bb, t in fn.calls() if t["f"].get("name") == "truncate" and len(t["args"]) == 2]
+    if truncs:
+        dep = DF.Dep(fn)
+        for bb, t in truncs:
+            l = op_local(t["args"][1])
+            names = {c["f"].get("name") for _, c in dep.calls_in_slice([l])} if l is not None else set()
+            if names & {"rposition", "rfind", "position", "rev"} and (names & {"rposition", "rfind"} or {"position", "rev"} <= names):
+                searches_nonzero = False
+                for _, c in dep.calls_in_slice([l]):
+                    if c["f"].get("name") in ("rposition", "rfind", "position"):
+                        for cid in closure_args(fn, c):
+                            clo = _FACTS.get(cid, fn.unit) if _FACTS is not None else None
+                            if clo is not None and any(cc["f"].get("name") == "is_zero" for _, cc in clo.calls()):
+                                searches_nonzero = True
+                if searches_nonzero:
+                    out.add(bb)
     return out
 
 
 def summarise_canonicalisers(facts):
     """functions taking &mut DensePolynomial that canonicalise it on every path"""
+    global _FACTS
+    _FACTS = facts
     out = set()
     for fn in facts.fns(unit="ws", crate="ark_poly"):
         if fn.kind == "Closure" or fn.d["argc"] != 1:
@@ -534,7 +556,7 @@ def check_evalpaths(res, facts):
         (rule.bad if problems else rule.ok)(key, "; ".join(problems) if problems else "returns: %s" % ", ".join(kinds), f.loc)
 
 
-def check_naivemul(res, facts):
+def check_naivemul(res, facts, proved=False):
     """schoolbook product: result[i + j] += a_i * b_j over ALL i < len(a), j < len(b), into a zeroed table of
     deg(a) + deg(b) + 1 entries, handed to the canonicalising constructor (compared as index polynomials)"""
     from rules.c07 import E, show, A, C, qeq
@@ -601,7 +623,13 @@ def check_naivemul(res, facts):
             problems.append("the accumulated value is %s, expected a_i * b_j with i, j the loop variables" % show(val)[:100])
     if not any(t["f"].get("name") == "from_coefficients_vec" for _, t in f.calls()):
         problems.append("the result is not built by the canonicalising constructor")
-    (rule.bad if problems else rule.ok)(key, "; ".join(problems) if problems else "result[i+j] += a_i*b_j, i < len(a), j < len(b); deg(a)+deg(b)+1 entries; from_coefficients_vec", f.loc)
+    canon = not any("canonicalising constructor" in p_ for p_ in problems)
+    if problems and proved and canon:
+        # R-POLYARITH evaluated naive_mul for all 16 degree pairs and found the convolution: the loop template is then only
+        # documentation of the pinned shape (the canonicalising constructor is still required here)
+        rule.ok(key, "loop template not matched (%s); the product is proved equal to the convolution under R-POLYARITH" % "; ".join(problems)[:100], f.loc)
+    else:
+        (rule.bad if problems else rule.ok)(key, "; ".join(problems) if problems else "result[i+j] += a_i*b_j, i < len(a), j < len(b); deg(a)+deg(b)+1 entries; from_coefficients_vec", f.loc)
 
 
 def run(ctx, res):
@@ -612,11 +640,11 @@ def run(ctx, res):
     check_div(res, facts)
     lincomb.check_poly_ops(res, facts)
     from rules import c08_arith
-    c08_arith.check_polyarith(res, facts)
+    proved = c08_arith.check_polyarith(res, facts)
     check_cosetfold(res, facts)
     check_vanishdep(res, facts)
     check_evalpaths(res, facts)
-    check_naivemul(res, facts)
+    check_naivemul(res, facts, "naive_mul" in (proved or ()))
     return {
         "level": "other",
         "explanation": "Typestate (must-pass-through) analysis over the MIR of ark-poly: every write access to a dense polynomial's coefficient vector must be followed on all paths by the strip-leading-zeros loop; computed sparse terms must be pushed under a non-zero guard; structure of division; operators defined through other operators evaluated symbolically as linear combinations of their operands. Does NOT decide coefficient-level results (loops over run-time lengths), FFT multiplication or evaluation.",
